@@ -33,7 +33,7 @@ Definition translated (cfg : config) (names : list str) (p : str) : Prop :=
 Definition allowed_op (cfg : config) (names : list str) (op : fs_op) : Prop :=
   match op with
   | FOpenR p | FOpenW p | FOpendir p | FMkdir p | FRmdir p | FUnlink p => translated cfg names p
-  | FStat p => translated cfg names p \/ exists d n, translated cfg names d /\ p = d ++ [47] ++ n
+  | FStat p => translated cfg names p \/ exists d n, translated cfg names d /\ ~ In 47 n /\ p = d ++ [47] ++ n
   | FRename a b => translated cfg names a /\ translated cfg names b
   | _ => True
   end.
@@ -154,7 +154,11 @@ Proof.
   - apply h_err.
   - hbn (h_call FReaddir I eq_refl) e.
     destruct e as [[| | | | |n| |]|]; try apply h_err.
-    + assert (Hst : S (FStat (path ++ [47] ++ n))). { right. exists path, n. auto. }
+    + destruct (has_slash n) eqn:Hsl; [apply h_err|].
+      assert (Hst : S (FStat (path ++ [47] ++ n))).
+      { right. exists path, n. repeat split; auto. intro Hin. unfold has_slash in Hsl.
+        assert (X : existsb (Z.eqb 47) n = true) by (apply existsb_exists; exists 47; split; [exact Hin|apply Z.eqb_refl]).
+        congruence. }
       hbn (h_call (FStat (path ++ [47] ++ n)) Hst eq_refl) st.
       destruct st as [[| | |isdir size ct at_ mt| | | |]|]; try apply h_err.
       * apply IH; auto.
